@@ -15,16 +15,17 @@ play — and no step between that case analysis and the printed union can drop a
   R01-d  the merge table of same-key fields and the skip/include table are exact (shared with C02), and `fast_equal`, which licenses
          de-duplication of union members, never equates different types.
 
-Structural instances look through helper functions (c02._inl) and are three-valued; instances whose message starts with `run:` are
-decided by abstract execution of the generator on a fixed schema and a GraphQL selection, compared with the spec's result for that
-input (see c02: _Interp, _Oracle) — a differing result is a concrete witness, an execution the interpreter cannot follow is UNDECIDED.
+Everything is decided from the typed HIR; nothing is executed.  Provenance instances look through helper functions (c02._inl) and are
+three-valued; `table:` / `paths:` instances read a finite decision table, or a property of every abstract path, out of the code by
+abstract evaluation over variant tags, booleans, the literals of the code and undetermined payloads (c02._Abs), forking on every
+undetermined condition — an evaluation without a model is UNDECIDED.
 """
 import harness
 from facts import norm, subnodes, matches_on, AnchorMissing
 from prov import Prov, has_field, has_call
 from templates import variant_table
 import c02
-from c02 import _inl, _sections, _tri, _scenario, _scn, TRUNCATING
+from c02 import _inl, _sections, _tri, _src_nodes, TRUNCATING
 
 PR = "nitrogql_printer::"
 OT = PR + "operation_type_printer::"
@@ -68,7 +69,7 @@ def _cuts(fn, *about):
 
 
 def r01b(P, R):
-    _sections(P, R, "R01-b", _b_parents, _b_implementers, _b_products, _b_variables, _b_branch_per_condition, _b_runs)
+    _sections(P, R, "R01-b", _b_parents, _b_implementers, _b_products, _b_variables, _b_branch_per_condition)
 
 
 def _b_parents(P, R):
@@ -107,6 +108,10 @@ def _b_implementers(P, R):
     ia = Prov(imp).deep_atoms(imp.body)
     reads = has_field(ia, TSD + "ObjectDefinition", "interfaces")
     scans = has_call(ia, "Schema::iter_types") or has_field(ia, "schema::Schema", "type_definitions") or has_field(ia, "schema::Schema", "type_names")
+    pos = c02._positional_over(imp, {(TSD + "ObjectDefinition", "interfaces")})
+    R.check("R01-b", "implementers-every-interface", not pos, "every interface an object lists is compared",
+            "interface_implementers looks at an object's interfaces by position (%s): an object that lists the interface in another position is not a "
+            "candidate, responses of that type have no branch" % sorted({b for _, b in pos}), loc=imp0.loc())
     _tri(R, "R01-b", "implementers-all", False if (lossy or not reads) else (True if scans else None),
          "implementers = every object of the schema that lists the interface",
          "interface_implementers truncates (%s) or never looks at the `interfaces` of an object" % lossy,
@@ -117,11 +122,7 @@ def _b_products(P, R):
     """(2) both values per variable, full products, nothing filtered"""
     g0 = P.fn(OT + "type_printer::generate_branching_conditions")
     g = _inl(P, g0)
-    bools = sorted({x.get("v") for x in g.walk() if x.get("k") == "Lit" and x.get("lk") == "bool"})
-    _tri(R, "R01-b", "variables-both-values:literals", True if bools == [False, True] else None,
-         "every boolean variable contributes (v, false) and (v, true)",
-         und="generate_branching_conditions mentions the boolean literals %s: how the values of a variable are enumerated is not recognised "
-             "(the run instance variables-both-values decides)" % bools, loc=g0.loc())
+    c02._f_product_table(P, R, "R01-b", g0)
     calls = {c["method"] for c in g.walk() if c.get("k") == "MethodCall"}
     _tri(R, "R01-b", "assignments-product", True if "multi_cartesian_product" in calls else None, "assignments = product over the variables",
          und="no multi_cartesian_product in generate_branching_conditions: how the assignments of several variables are combined is not recognised "
@@ -136,8 +137,8 @@ def _b_products(P, R):
 
 
 def _b_variables(P, R):
-    """(3) the variable enumeration sees every directive of every selection (decided by running the generator)"""
-    c02._f_variable_runs(P, R, "R01-b")
+    """(3) the variable enumeration sees every selection and every directive of it (c02: paths of the enumeration, lossless traversal)"""
+    c02._f_variables(P, R, "R01-b")
 
 
 def _b_branch_per_condition(P, R):
@@ -149,15 +150,6 @@ def _b_branch_per_condition(P, R):
     _tri(R, "R01-b", "branch-per-condition", False if lossy else (True if uses else None),
          "one branch per branching condition", "get_type_for_selection_set drops conditions (%s)" % lossy,
          "get_type_for_selection_set does not call generate_branching_conditions directly (the run instances decide)", loc=gt0.loc())
-
-
-def _b_runs(P, R):
-    S = _scn(P)
-    _scenario(R, "R01-b", "parents:Object:run", S, "User", "{ id }", "an object parent has its own branch")
-    _scenario(R, "R01-b", "parents:Interface:run", S, "Named", "{ name }", "an interface parent has a branch for every implementing object (wherever the interface stands in its list)")
-    _scenario(R, "R01-b", "parents:Union:run", S, "Thing", "{ __typename ... on Node { id } }", "a union parent has a branch for every member")
-    _scenario(R, "R01-b", "conditions-product:run", S, "Node", "{ a: id @skip(if: $p) ... on Bot { m: model @include(if: $q) } }",
-              "every possible object is combined with every assignment of the boolean variables")
 
 
 def r01c(P, R):
@@ -190,26 +182,89 @@ def r01c(P, R):
                 % (sorted(ident) or "nothing", missing, keys), loc=go.loc())
 
 
+KEYED = ("get", "get_mut", "insert", "entry", "contains_key", "contains", "remove", "get_or_insert_with", "get_key_value", "raw_entry")
+MAPS = ("HashMap<", "BTreeMap<", "IndexMap<", "HashSet<", "BTreeSet<", "IndexSet<")
+
+
+def r01c_keys(P, R):
+    """a map keyed by (part of) a BranchingCondition — a memo of expansions, an index of branches — identifies branches across *all* selection sets
+    that share the map.  The position of a variable in `boolean_variables` is the order in which one selection set happens to meet the
+    variables, so a key that keeps the values but not the names of the variables gives two different assignments the same key."""
+    seen = 0
+    for name in ("get_fields_for_selection_set", "get_type_for_selection_set", "get_object_type_for_selection_set", "generate_branching_conditions"):
+        try:
+            f0 = P.fn(OT + "type_printer::" + name)
+        except AnchorMissing:
+            continue
+        f = _inl(P, f0)
+        pv = Prov(f)
+        n = 0
+        for c in f.walk():
+            if c.get("k") != "MethodCall" or c["method"] not in KEYED or not c["args"]:
+                continue
+            t = str(c["recv"].get("t") or "") + str(c.get("self_ty") or "")
+            if not any(m in t for m in MAPS):
+                continue
+            key = c["args"][0]
+            if not has_field(pv.deep_atoms(key), BC, "boolean_variables"):
+                continue
+            n += 1
+            seen += 1
+            names_kept = values_kept = destructured = False
+            used = {y.get("local") for y in _src_nodes(pv, key) if y.get("k") == "Path" and "local" in y}
+            for y in _src_nodes(pv, key):
+                ty = str(y.get("t") or "").replace("&", "").replace("'_ ", "").strip()
+                if y.get("k") == "Tuple" and len(y.get("ps", [])) == 2 and ty.replace(" ", "") in ("(str,bool)",):
+                    destructured = True
+                    p0, p1 = y["ps"]
+                    names_kept = names_kept or (p0.get("k") == "Binding" and p0.get("local") in used)
+                    values_kept = values_kept or (p1.get("k") == "Binding" and p1.get("local") in used)
+                if y.get("k") == "Field" and not y.get("adt") and str(y["e"].get("t") or "").replace("&", "").replace(" ", "") == "(str,bool)":
+                    destructured = True
+                    names_kept = names_kept or y["field"] == "0"
+                    values_kept = values_kept or y["field"] == "1"
+            k = "branch-key:%s#%d" % (name, n)
+            shared = any(x[0] == "param" for x in pv.atoms(c["recv"]))
+            if not destructured:
+                R.holds("R01-c", k, "the key holds the (name, value) pairs of the boolean variables as they are", loc=f0.loc())
+            elif not shared and not (names_kept or not values_kept):
+                R.undecided("R01-c", k, "a map local to %s is keyed by the values of the boolean variables without their names; whether it lives longer than "
+                            "one selection set (all of whose branches list the same variables in the same order) is not decided" % f0.path, loc=f0.loc())
+            else:
+                R.check("R01-c", k, names_kept or not values_kept, "the key names the variables whose values it holds",
+                        "a map that %s receives from its caller (shared by every selection set of the definition) is keyed by the *values* of the branch's boolean variables in the order of `boolean_variables`, without the variables' "
+                        "names: two selection sets that meet the variables in a different order (or different variables) produce the same key for different "
+                        "assignments, so what was computed for one assignment is reused for another — fields are required / `?: never` under the wrong "
+                        "condition" % f0.path, loc=f0.loc())
+    if not seen:
+        R.holds("R01-c", "branch-key:none", "no map is keyed by a branching condition")
+
+
 def r01d(P, R):
     c02.r02e(P, _Relabel(R, "R01-d"))
     c02.r02f(P, _Relabel(R, "R01-d"))
 
 
-RULES = [("R01-a", r01a), ("R01-b", r01b), ("R01-c", r01c), ("R01-d", r01d)]
+def r01c_all(P, R):
+    _sections(P, R, "R01-c", r01c, r01c_keys)
+
+
+RULES = [("R01-a", r01a), ("R01-b", r01b), ("R01-c", r01c_all), ("R01-d", r01d)]
 EXPLANATION = (
-    "Necessary conditions of completeness of the emitted Result types. Structural instances are decided for all schemas and documents; "
-    "instances marked `run:` are decided by abstract execution of the generator over the typed HIR on a fixed small schema and a GraphQL "
-    "selection (everything else undetermined), compared with the GraphQL spec's result for that input — a differing result is a concrete "
-    "witness. (R01-a) the "
+    "Necessary conditions of completeness of the emitted Result types, decided from the typed HIR without executing anything. Provenance "
+    "instances hold for all schemas and documents; `table:` / `paths:` instances read a finite decision table, or a property of every "
+    "abstract path, out of the code by abstract evaluation over variant tags, booleans, the literals of the code and undetermined payloads "
+    "(forking on every undetermined condition). (R01-a) the "
     "output-side nullability tables equal the spec table (a missing `| null` is reported); (R01-b) the case analysis behind the union of "
     "branches is complete — object itself / all implementers / all union members, both values of every boolean variable found by a "
     "visitor that sees every selection and every @skip/@include, combined by full cartesian products with no filter; (R01-c) a branch "
-    "keeps every component of its condition, so that merging two occurrences of a response key cannot collapse cases; (R01-d) the "
+    "keeps every component of its condition, so that merging two occurrences of a response key cannot collapse cases, and a map shared by "
+    "several selection sets that is keyed by a branch names the variables whose values it holds; (R01-d) the "
     "same-key merge table, the skip/include table and fast_equal (which licenses union de-duplication) are exact. NOT decided: the "
     "inclusion itself (membership of every response in the TypeScript type, the __SelectionSet utility type, scalar mappings).")
 ASSUMPTIONS = ["itertools::cartesian_product / multi_cartesian_product / unique behave as documented",
                "rustc type checker resolves callees (facts)",
-               "the interpreter's models of std (Option, iterators, Vec, HashMap/HashSet, itertools products) are exact; anything else is UNDECIDED",
+               "the abstract evaluator's models of std (Option, iterators, Vec, itertools products) are exact or raise: anything without a model is UNDECIDED",
                "TypeScript semantics of the emitted utility types is outside the claim"]
 
 
